@@ -291,7 +291,7 @@ CHECKS = {
     "C10": dict(
         pkg="stack",
         level="exploration",
-        groups=[G("^TestC10_ServerNeg$", 750, 10000), G("^TestC10_ClientNeg$", 750, 10000)],
+        groups=[G("^TestC10_ServerNeg$", 750, 10000), G("^TestC10_ClientNeg$", 750, 10000), G("^TestC10_SessionNeg$", 300, 3000)],
         rule="(a) real ServeConn vs a scripted client proposing any msize in [0, 2^32) (dense at 0..30, 18..24, 2^16+-2, 2^31+-1, 2^32-1) with arbitrary version strings, or a first message that is "
              "not Tversion; then maximal traffic: a Twrite frame of exactly the agreed size (must reach the handler intact), a Tread with count 2^32-1 (handler must see count <= agreed-11, the maximal Rread "
              "must be emitted whole and within msize), a handler result that does not fit (must not be emitted oversize), a frame of agreed+1 bytes (must not be dispatched); the oversize handler result is an Rread, an error text, an Rstat or an Rwalk that cannot fit; 1 case in 6 sends a second Tversion in "
@@ -299,8 +299,8 @@ CHECKS = {
              "then sends a non-version message (must be refused). (b) real CSession vs a scripted "
              "server answering any msize; Version() must be min(65536, answer); then every Session method is called with oversized arguments (incl. a walk whose 16 names add up to more than 65535 bytes) and every frame the client emits must be <= agreed, unsolicited frames after the negotiation (unknown tag, agreed+1 bytes) must not crash the client, and a maximal "
              "read (Rread frame of exactly the agreed size) must be delivered. Refusals: ServeConn must return an error and the handler must see neither Handle nor Stop. "
-             "Non-trivial = min(proposal, answer) < 65536 or a refusal.",
-        require_classes=dict(quick=["negotiated", "refused_first_message_not_version", "refused_msize_too_small_for_rversion", "max_twrite_delivered", "max_rread_emitted", "oversize_not_dispatched", "agreed_below_24", "emitted_read", "refused_read", "refused_silent_during_negotiation_window", "second_tversion_refused", "refused_walk_big", "unsolicited_frames_after_negotiation"], thorough=[]),
+             "(c) real ServeConn(SSession(S)) where S's own Version() reports any msize from 0 to 70000, i.e. often less than what the handshake agrees: a Twrite frame of exactly the agreed size, and one of S's msize + 1, must be served (Rwrite with the full count). Non-trivial = min(proposal, answer) < 65536 or a refusal.",
+        require_classes=dict(quick=["negotiated", "refused_first_message_not_version", "refused_msize_too_small_for_rversion", "max_twrite_delivered", "max_rread_emitted", "oversize_not_dispatched", "agreed_below_24", "emitted_read", "refused_read", "refused_silent_during_negotiation_window", "second_tversion_refused", "refused_walk_big", "unsolicited_frames_after_negotiation", "session_msize_below_agreed"], thorough=[]),
         assumptions=["the server's own maximum is 65536 (DefaultMSize) and the client proposes 65536, as the code documents",
                      "19 bytes (the Rversion frame for '9P2000') is the smallest proposal that can carry the version reply"],
     ),
